@@ -356,8 +356,11 @@ def main(ck):
       dtrue_exist = None
     else:
       dtrue_exist = dtrue
+    # the broad phase compares bounding boxes rounded to float32 (mj_SAP): a pair whose boxes overlap by less than one
+    # float32 ulp of the coordinate can be pruned -> existence is don't-care within 2e-7*(size + |position|)
+    tex = tdist + 2e-7 * sc
     if dtrue_exist is not None and not par_caps:
-      if dtrue < M + G - tdist and ncon == 0:
+      if dtrue < M + G - tex and ncon == 0:
         (softfail if is_ccd else hard)('no contact although true distance %.17g < margin+gap %.17g' % (dtrue, M + G),
                                        'missing-contact')
       if dtrue > M + G + tdist and ncon > 0:
